@@ -155,6 +155,84 @@ theorem pfn_only_view (okP okM : Nat → Bool) (jP jM : Nat) (be : Bool) (shift 
     have hs := none_of_build okP jP _ pm hW hnd hl hpm f (frame_lt_W shift f hf) hn
     exact getPage_nodata _ .kphys f off hs hoff
 
+/-! ## Histories: option changes re-initialise the translation system -/
+
+/-- what an application does between `open` and `close`: change a translation option,
+ask for the translation (`kdump_get_addrxlat`, or a read that needs it) while the
+library's set-up succeeds / fails after the wipe / fails before it -/
+inductive XOp
+  | setOpt | fetch (o : OsInit)
+  deriving Repr
+
+def xStep (d : Dump) (x : Xlat) : XOp → Xlat
+  | .setOpt => setOpt x
+  | .fetch o => (revalidate d o x).2
+
+def xRun (d : Dump) (x : Xlat) : List XOp → Xlat
+  | [] => x
+  | op :: t => xRun d (xStep d x op) t
+
+/-- a system that is not flagged dirty holds the xc_core methods iff the dump needs them -/
+def XInv (d : Dump) (x : Xlat) : Prop := x.dirty = false → x.xc = d.nonauto
+
+/-- After every history of option changes and (successful or failing) set-ups, starting from
+the freshly opened dump, a translation system that is not flagged dirty has the P2M/M2P
+methods of a non-auto-translated dump installed … -/
+theorem xlat_history (d : Dump) (ops : List XOp) : XInv d (xRun d {} ops) := by
+  have step : ∀ x op, XInv d x → XInv d (xStep d x op) := by
+    intro x op hx
+    cases op with
+    | setOpt => intro h; simp [xStep, setOpt] at h
+    | fetch o =>
+      simp only [xStep, revalidate]
+      by_cases hd : x.dirty = true
+      · rw [if_pos hd]
+        cases o with
+        | ok => intro _; cases hn : d.nonauto <;> simp [vtopInit, xcPost, hn]
+        | failWiped => intro h; simp [vtopInit] at h
+        | failEarly => intro h; simp [vtopInit] at h
+      · rw [if_neg hd]; exact hx
+  have run : ∀ ops x, XInv d x → XInv d (xRun d x ops) := by
+    intro ops
+    induction ops with
+    | nil => intro x hx; exact hx
+    | cons op t ih => intro x hx; exact ih _ (step x op hx)
+  exact run ops {} (by intro h; simp at h)
+
+/-- … so whenever the application is handed the translation system (the set-up reported
+success), guest→machine and machine→guest conversions are the same functions of the page
+list as on the first use — those of `p2m_m2p_roundtrip` — whatever was changed in between. -/
+theorem reinit_same_function (d : Dump) (hn : d.nonauto = true) (ops : List XOp) (o : OsInit)
+    (hok : (revalidate d o (xRun d {} ops)).1 = true) (addr : Nat) :
+    convP2m d (revalidate d o (xRun d {} ops)).2 addr = some (p2m d addr) ∧
+    convM2p d (revalidate d o (xRun d {} ops)).2 addr = some (m2p d addr) := by
+  have hinv := xlat_history d (ops ++ [.fetch o])
+  have hrun : ∀ (l : List XOp) x, xRun d x (l ++ [.fetch o]) = (revalidate d o (xRun d x l)).2 := by
+    intro l
+    induction l with
+    | nil => intro x; rfl
+    | cons a t ih => intro x; exact ih _
+  rw [hrun] at hinv
+  have hclean : (revalidate d o (xRun d {} ops)).2.dirty = false := by
+    revert hok
+    simp only [revalidate]
+    by_cases hd : (xRun d {} ops).dirty = true
+    · rw [if_pos hd]
+      cases o <;> simp [vtopInit, xcPost, hn]
+    · rw [if_neg hd]; intro _; simpa using hd
+  have hxc := hinv hclean
+  simp [convP2m, convM2p, hxc, hn]
+
+/-- A set-up that fails is not forgotten: the system stays flagged, so the next request runs
+`vtop_init` again (and reports the failure again) instead of handing out the wiped system. -/
+theorem failed_setup_retried (d : Dump) (x : Xlat) (o : OsInit) (hf : (revalidate d o x).1 = false) :
+    (revalidate d o x).2.dirty = true := by
+  revert hf
+  simp only [revalidate]
+  by_cases hd : x.dirty = true
+  · rw [if_pos hd]; cases o <;> simp [vtopInit]
+  · rw [if_neg hd]; simp
+
 /-! ## Non-vacuity: the hypotheses are met by concrete, non-trivial states -/
 
 /-- a mixed list: ascending run, isolated frame, descending run, frames at both
@@ -176,5 +254,11 @@ def exDump : Option Dump := mkDump (fun _ => true) (fun _ => true) 0 0 true fals
 example : exDump.map (fun d => (p2m d 0x10123, m2p d 0x5000123)) = some (.ok 0x5000123, .ok 0x10123) := by decide
 example : exDump.map (fun d => (getPage d .kphys 0x10123, getPage d .machphys 0x5000fff)) = some (.ok 0x4000, .ok 0x4000) := by decide
 example : exDump.map (fun d => (getPage d .kphys 0x12000, m2p d 0x5002000)) = some (.error .nodata, .error .nodata) := by decide
+
+-- a history: first use, two option changes, a failing set-up (wiped), a repaired option, use
+example : exDump.map (fun d => xRun d {} [.fetch .ok, .setOpt, .setOpt, .fetch .failWiped, .fetch .failWiped, .setOpt, .fetch .ok])
+    = some ⟨false, true⟩ := by decide
+example : exDump.map (fun d => (revalidate d .failWiped (xRun d {} [.fetch .ok, .setOpt])).2) = some ⟨true, false⟩ := by decide
+example : exDump.map (fun d => convP2m d (xRun d {} [.fetch .ok, .setOpt, .fetch .ok]) 0x10123) = some (some (.ok 0x5000123)) := by decide
 
 end Kdf.Props.C19
